@@ -309,6 +309,27 @@ fn sweep05(part: usize, parts: usize) -> impl Iterator<Item = Case05> {
             v.push(Case05::Conn { profile: p, fault: Fault { message: 0, kind: FaultKind::Xor(vec![]), kind2: None } });
         }
     }
+    // every MCS domain parameter of the connect response at small and boundary values (minimal BER integers, all enclosing
+    // lengths consistent), followed by the rest of the conversation
+    for idx in 0..8usize {
+        for val in [0u32, 1, 2, 3, 4, 5, 6, 7, 8, 9, 0x7F, 0x80, 0xFF, 0x100, 0x41F, 0x420, 0x421, 0x7FFF, 0x8000, 0xFFFF, 0x10000, 0xFFFFFF, 0x7FFF_FFFF, 0x8000_0000, 0xFFFF_FFFF] {
+            let mut p = ServerProfile::simple(1004, 0x000103EA);
+            p.domain_params[idx] = val;
+            v.push(Case05::Conn { profile: p, fault: Fault { message: 0, kind: FaultKind::Xor(vec![]), kind2: None } });
+        }
+    }
+    // N extra PDUs with an unusual security header in front of the licensing PDU (auto-detect request, heartbeat, redirection,
+    // encrypted-licence, no flags at all): counters and loops on the way to the licence
+    for flags in [0x1000u16, 0x2000, 0x4000, 0x0400, 0x0200, 0x0000, 0x0008, 0x1080] {
+        for count in [1usize, 2, 3, 16, 255, 256, 257, 300, 1000] {
+            let mut p = ServerProfile::simple(1004, 0x000103EA);
+            let mut body = Built::new();
+            body.u16le("flags", flags).u16le("flagsHi", 0).blob("data", &[6, 0, 0, 0, 0, 0]);
+            let frame = wire::send_data_indication(p.server_user, p.io_channel, &body).bytes;
+            p.pre_license = vec![frame; count];
+            v.push(Case05::Conn { profile: p, fault: Fault { message: 0, kind: FaultKind::Xor(vec![]), kind2: None } });
+        }
+    }
     // every selected protocol low byte, with and without an authentication protocol
     for sel in 0..256u32 {
         for auth in [false, true] {
